@@ -95,6 +95,12 @@ def rule_Q2(prog, fixture=False):
             what = "%s in %s" % (c.text()[:60], f.short)
             extra = {"props": ["C05"] + (["C15"] if rel.endswith("primes.cpp") else [])}
             last_text = args[1].strip_all().text()
+            if not _is_end(args[1], None):
+                # a search over part of the storage (x, x + n - 1): the "not found" result is that position, which may be a valid
+                # element - what the rule says about end() does not apply
+                res.add(key, DISCHARGED, where, what, "searches a sub-range: its end (%s) is not the end of the storage" % last_text[:40],
+                        func=f.name, extra=extra)
+                continue
             top, p = _up(c)
             derefs = []       # (node, iterator local id or None)
             vid = None
